@@ -25,7 +25,13 @@ What is asserted (only what the statement says):
   * float_to_int          the rounding cell (ints / bools unchanged)
 Group order is free; empty groups returned for empty input are dropped before comparison.
 
-Not judged (outside the statement, see notes/C06.md): merge_runs(digits=) is an absolute
+Input classes added after review rounds: rows without columns; two operands of different integer types
+with alias rows (boolean_rows); every integer type in the 1-D primitives; uint64 values above 2^63-1; long
+inputs (run-length encoded in the witness) fed as a history of growing / shrinking lengths.
+
+Not judged (outside the statement, see notes/C06.md): merge_runs on bool input (documented domain is
+float / int; numpy refuses boolean subtraction); float_to_int on uint64 values above 2^63-1 (documented to
+return int64; the one-to-one wrap is judged through the partitions of the row functions); merge_runs(digits=) is an absolute
 tolerance, not a rounding - only values >= 10 cells apart or <= 0.1 cell apart are generated
 for it; unique_bincount is only given non-negative signed ints (the function's documented
 domain); which occurrence unique_rows / unique_ordered index is not asserted beyond
@@ -51,7 +57,13 @@ RULE = (
     "*collision partners* (the hashable_rows packing formula evaluated in unbounded ints mod 2^64 and decoded "
     "back; aliases modulo the field width with / without carry), dtypes int64 / int32 / int16 / uint8 / bool; "
     "(c) float rows inside rounding cells for digits in {None,0,1,3,6}; (d) empty and single-row inputs for "
-    "every function. One case = one call; distinct = distinct (function, dtype, data bytes, options); "
+    "every function, rows without columns (n,0); (e) boolean_rows on two arrays of different integer types "
+    "(all 8 signed / unsigned widths) where each side also holds aliases of the other side's rows (one element "
+    "moved by +-2^8 / 2^16 / 2^32 / 2^64); the 1-D primitives on every integer type with values at the ends, the "
+    "middle and the quarter points of the type's range; (f) long inputs given as run-length descriptions, lengths "
+    "on both sides of 2^8..2^14 up to 30000, as a call history with ascending then descending lengths, first "
+    "value == last value with short and long first runs (blocks wrap grid, merge_runs, group, unique_ordered). "
+    "One case = one call; distinct = distinct (function, dtype, data bytes, options); "
     "trivial = fewer than two rows / elements."
 )
 ANCHORS = [
@@ -78,6 +90,7 @@ ASSUMPTIONS = [
     "float keys: round(Fraction(x) * 10^digits) on values generated >= 0.2 cell away from a rounding boundary",
     "merge_runs(digits) is a tolerance: only values <= 0.1 cell or >= 10 cells apart are fed to it",
     "unique_bincount is only given non-negative signed integers (documented domain of the function)",
+    "merge_runs is not given bool arrays (documented domain float / int)",
 ]
 EXHAUSTIVE = {"quick": False, "thorough": False}
 
@@ -89,7 +102,14 @@ KS = (7, 15, 16, 20, 21, 31, 32, 52, 53, 62, 63)
 
 
 def mk(case, name="data"):
-    a = np.array(case[name], dtype=case.get("dtype", "int64"))
+    # the second operand may have its own dtype (mixed integer types); long inputs are recorded
+    # run-length encoded ("rle": [[value, count], ...]) so a witness stays small
+    dtype = (case.get(name + "_dtype") if name != "data" else None) or case.get("dtype", "int64")
+    rle = case.get("rle" if name == "data" else name + "_rle")
+    if rle is not None:
+        a = np.repeat(np.array([v for v, _ in rle], dtype=dtype), [int(c) for _, c in rle])
+    else:
+        a = np.array(case[name], dtype=dtype)
     shape = case.get("shape" if name == "data" else name + "_shape")
     if shape is not None:
         a = a.reshape(shape)
@@ -138,10 +158,23 @@ def fs(groups):
     return sorted(tuple(sorted(int(i) for i in g)) for g in groups if len(g))
 
 
+def brief(v, limit=400):
+    """Observed / expected values of a long input are summarised, the witness stays replayable."""
+    r = repr(v)
+    return v if len(r) <= 4 * limit else {"summary": r[:limit] + " ... " + r[-limit // 4:], "repr_len": len(r)}
+
+
 def bad(run, case, key, what, **obs):
     w = dict(case)
-    w.update(obs)
+    w.update({k: brief(v) for k, v in obs.items()})
     run.violation(key, what, w)
+
+
+def dig(case, a):
+    """What identifies the input of a case in the distinct-case digest (compact for long inputs)."""
+    if case.get("rle") is not None:
+        return ("rle", str(a.dtype), repr(case["rle"]))
+    return a
 
 
 def call(run, case, a, fn, *args, opt="", **kw):
@@ -297,7 +330,7 @@ def chk_group(run, case):
     a = mk(case)
     mn, mx = case.get("min_len"), case.get("max_len")
     ok, res = call(run, case, a, grouping.group, a, min_len=mn, max_len=mx)
-    run.case("group", a, mn, mx, nontrivial=len(a) >= 2)
+    run.case("group", dig(case, a), mn, mx, nontrivial=len(a) >= 2)
     if not ok:
         return
     cls = classes(keys_of(a))
@@ -315,7 +348,7 @@ def chk_unique_ordered(run, case):
     a = mk(case)
     ri, rv = bool(case.get("return_index")), bool(case.get("return_inverse"))
     ok, res = call(run, case, a, grouping.unique_ordered, a, return_index=ri, return_inverse=rv)
-    run.case("unique_ordered", a, ri, rv, nontrivial=len(a) >= 2)
+    run.case("unique_ordered", dig(case, a), ri, rv, nontrivial=len(a) >= 2)
     if not ok:
         return
     keys = keys_of(a)
@@ -380,7 +413,7 @@ def chk_merge_runs(run, case):
     digits = case.get("digits")
     kw = {} if digits is None else {"digits": digits}
     ok, res = call(run, case, a, grouping.merge_runs, a, **kw)
-    run.case("merge_runs", a, digits, nontrivial=len(a) >= 2)
+    run.case("merge_runs", dig(case, a), digits, nontrivial=len(a) >= 2)
     if not ok:
         return
     keys = keys_of(a, digits)
@@ -388,10 +421,12 @@ def chk_merge_runs(run, case):
     got = keys_of(np.asarray(res), digits)
     if got != want:
         raw = [int(x) for x in a.tolist()] if a.dtype.kind != "f" else []
-        wide = any(abs(x - y) >= 2**63 for x, y in zip(raw, raw[1:]))
+        # half the range of the integer type: 2^63 for int64, 2^31 for int32 ...
+        half = 8 * a.dtype.itemsize - 1
+        wide = a.dtype.kind == "i" and any(abs(x - y) >= 2**half for x, y in zip(raw, raw[1:]))
         base = "fn=merge_runs %s kind=%s" % (klass(a), a.dtype.kind)
         if wide:
-            base += " input=adjacent_difference>=2^63"
+            base += " input=adjacent_difference>=2^%d" % half
         sym = "distinct_values_merged" if len(got) < len(want) else ("repeats_kept" if len(got) > len(want) else "values")
         bad(run, case, base + " sym=" + sym, "result is not the first element of every maximal run", got=got, want=want)
 
@@ -469,17 +504,39 @@ def chk_boolean_rows(run, case):
     run.case("boolean_rows", a, b, opname, nontrivial=len(a) >= 1 and len(b) >= 1)
     if not ok:
         return
-    ka, kb = set(keys_of(a)), set(keys_of(b))
+    la, lb = keys_of(a), keys_of(b)
+    ka, kb = set(la), set(lb)
     want = ka & kb if opname == "intersect1d" else ka - kb
     res = np.asarray(res)
-    base = "fn=boolean_rows %s kind=%s op=%s" % (klass(a), a.dtype.kind, opname)
+    # input class: same / mixed integer types; unsigned values no signed 64 bit integer holds
+    big = [x.dtype.kind == "u" and x.size > 0 and int(x.max()) > INT64_MAX for x in (a, b)]
+    if any(big):
+        base = "fn=boolean_rows input=uint64_values>=2^63 a=%s b=%s" % (a.dtype.kind, b.dtype.kind)
+    elif a.dtype == b.dtype:
+        base = "fn=boolean_rows %s kind=%s op=%s" % (klass(a), a.dtype.kind, opname)
+    else:
+        wa, wb = a.dtype.itemsize, b.dtype.itemsize
+        rel = "a_narrower" if wa < wb else ("a_wider" if wa > wb else "same_width")
+        base = "fn=boolean_rows %s types=%s a=%s b=%s op=%s" % (klass(a), rel, a.dtype.kind, b.dtype.kind, opname)
     if res.ndim != 2 or res.shape[1] != a.shape[1]:
         bad(run, case, base + " sym=malformed_result", "result must be (p, d)")
         return
     got = keys_of(res)
-    if set(got) != want:
-        bad(run, case, base + " sym=mismatch", "rows differ from the set operation", got=sorted(got), want=sorted(want))
-    elif len(got) != len(set(got)):
+    sgot = set(got)
+    if sgot != want:
+        # rows reported as shared (intersect) / removed from a (setdiff) although no row of b equals them
+        matched = (sgot - want) if opname == "intersect1d" else ((ka - sgot) - kb)
+        missed = (want - sgot) if opname == "intersect1d" else ((sgot & ka) - want)
+        if sgot - ka:
+            sym = "returned_row_not_in_a"
+        elif matched and not missed:
+            sym = "distinct_rows_matched"
+        elif missed and not matched:
+            sym = "equal_rows_missed"
+        else:
+            sym = "mismatch"
+        bad(run, case, base + " sym=" + sym, "rows differ from the set operation", got=sorted(got), want=sorted(want))
+    elif len(got) != len(sgot):
         bad(run, case, base + " sym=duplicates", "a row is returned twice by a set operation", got=sorted(got))
 
 
@@ -513,7 +570,7 @@ def chk_blocks(run, case):
     opt = "wrap=%d nz=%d" % (wrap, nz)
     ok, res = call(run, case, a, grouping.blocks, a, min_len=mn, max_len=mxv, wrap=wrap, digits=digits,
                    only_nonzero=nz, opt=opt)
-    run.case("blocks", a, mn, mx, wrap, nz, digits, nontrivial=len(a) >= 2)
+    run.case("blocks", dig(case, a), mn, mx, wrap, nz, digits, nontrivial=len(a) >= 2)
     if not ok:
         return
     keys = keys_of(a, digits)
@@ -609,7 +666,9 @@ CHECKERS = {
 
 
 def observe(run, fn, data, dtype="int64", shape=None, **opts):
-    case = {"fn": fn, "data": data, "dtype": dtype}
+    case = {"fn": fn, "dtype": dtype}
+    if data is not None:
+        case["data"] = data
     if shape is not None:
         case["shape"] = list(shape)
     case.update(opts)
@@ -719,7 +778,10 @@ def row_suite(run, rows, dtype, shape, tag, digits=None):
         observe(run, "unique_rows", data, dtype, shape, digits=digits, keep_order=keep)
     for rc in (None, 1, 2, 3):
         observe(run, "group_rows", data, dtype, shape, digits=digits, require_count=rc)
-    observe(run, "float_to_int", data, dtype, shape, digits=digits)
+    if not (a.dtype.kind == "u" and a.size and int(a.max()) > INT64_MAX):
+        # float_to_int returns int64: unsigned values above 2^63-1 have no image (they wrap one-to-one,
+        # which the partition checks above do judge)
+        observe(run, "float_to_int", data, dtype, shape, digits=digits)
 
 
 def float_cells(rng, cells, digits, spread=0.3):
@@ -736,6 +798,11 @@ def fixed_cases(run):
         row_suite(run, [], i64, (0, c), "empty")
         row_suite(run, [list(range(c))], i64, (1, c), "single")
         row_suite(run, [], "float64", (0, c), "empty_float")
+        # rows without columns: every row is the same (empty) row
+        row_suite(run, [[] for _ in range(c % 3 + 1)], i64, (c % 3 + 1, 0), "zero_columns")
+    for op in ("intersect1d", "setdiff1d"):
+        observe(run, "boolean_rows", [[], []], i64, (2, 0), b=[[]], b_shape=[1, 0], operation=op)
+    observe(run, "unique_value_in_row", [[], []], i64, (2, 0))
     row_suite(run, [], i64, (0,), "empty_1d")
     row_suite(run, [7], i64, (1,), "single_1d")
     # the documented examples and the design's collision pairs
@@ -767,6 +834,7 @@ def fixed_cases(run):
     # extreme magnitudes in the 1-D primitives
     ext = [2**62, -(2**62), 2**63 - 1, -(2**63), 2**63 - 1, 0, 0, -(2**63)]
     observe(run, "merge_runs", [2**62, -(2**62)], i64, (2,))
+    observe(run, "merge_runs", [2**62, -(2**62), 5], i64, (3,))
     observe(run, "merge_runs", ext, i64, (len(ext),))
     observe(run, "group", ext, i64, (len(ext),))
     observe(run, "unique_ordered", ext, i64, (len(ext),), return_index=True, return_inverse=True)
@@ -841,6 +909,13 @@ SMALL_DTYPES = {"int32": (-(2**31), 2**31 - 1), "int16": (-(2**15), 2**15 - 1), 
 
 def random_rows(run):
     rng, pyr = run.rng, run.pyrng
+    x = rng.random()
+    if x < 0.10:
+        return mixed_dtype_rows(run)
+    if x < 0.16:
+        return narrow_1d(run)
+    if x < 0.163:
+        return long_suite(run, int(rng.integers(300, 30000)))
     r = int(rng.integers(10))
     if r <= 5:
         c = pyr.choice([1, 2, 2, 2, 3, 3, 4, 4, 5, 6])
@@ -908,8 +983,147 @@ def random_rows(run):
                 max_len=pyr.choice([None, 2, 3]), wrap=bool(rng.integers(2)), only_nonzero=bool(rng.integers(2)), digits=digits)
 
 
+INT_DTYPES = {"int8": (-128, 127), "int16": (-(2**15), 2**15 - 1), "int32": (-(2**31), 2**31 - 1),
+              "int64": (INT64_MIN, INT64_MAX), "uint8": (0, 255), "uint16": (0, 65535), "uint32": (0, 2**32 - 1),
+              "uint64": (0, 2**64 - 1)}
+
+
+def fits(row, dt):
+    lo, hi = INT_DTYPES[dt]
+    return all(lo <= v <= hi for v in row)
+
+
+def mixed_dtype_rows(run):
+    """
+    boolean_rows on two arrays of DIFFERENT integer types.  Rows are drawn as Python ints; `a` gets the
+    ones its type can hold, `b` the ones its type can hold, and each side also gets *aliases* of rows of
+    the other side: one element moved by +-2^8 / 2^16 / 2^32 / 2^64, i.e. a different row that becomes
+    equal to it if either array is cast to a narrower type or to the other signedness.
+    """
+    rng, pyr = run.rng, run.pyrng
+    da, db = pyr.sample(list(INT_DTYPES), 2) if rng.random() < 0.85 else [pyr.choice(list(INT_DTYPES))] * 2
+    c = pyr.choice([1, 2, 2, 3, 4, 5])
+
+    def pool(dt):
+        lo, hi = INT_DTYPES[dt]
+        return [lo, lo + 1, hi - 1, hi, (lo + hi) // 2, (lo + hi) // 2 + 1]
+
+    values = pool(da) + pool(db) + [0, 1, 2, 3, -1, -2, 7] * 3
+    rows = [[pyr.choice(values) for _ in range(c)] for _ in range(int(rng.integers(3, 9)))]
+    rows += [[int(rng.integers(0, 4)) for _ in range(c)] for _ in range(3)]
+    A = [r for r in rows if fits(r, da)]
+    B = [r for r in rows if fits(r, db) and rng.random() < 0.7]
+    for src, dst, ddst in ((A, B, db), (B, A, da)):
+        for r in list(src):
+            for _ in range(2):
+                q = list(r)
+                q[int(rng.integers(c))] += pyr.choice([1, -1]) * (1 << pyr.choice([8, 16, 32, 64]))
+                if fits(q, ddst):
+                    dst.append(q)
+    if not A or not B:
+        return
+    pyr.shuffle(A)
+    pyr.shuffle(B)
+    run.state("boolean_rows_dtypes", (da, db))
+    for op in ("intersect1d", "setdiff1d"):
+        observe(run, "boolean_rows", A, da, (len(A), c), b=B, b_shape=[len(B), c], b_dtype=db, operation=op)
+
+
+def narrow_1d(run):
+    """The 1-D primitives on every integer type, values at both ends of the type's range."""
+    rng, pyr = run.rng, run.pyrng
+    dt = pyr.choice(list(INT_DTYPES))
+    lo, hi = INT_DTYPES[dt]
+    mid = (lo + hi + 1) // 2
+    q = (hi - lo + 1) // 4
+    pool = [lo, lo + 1, hi - 1, hi, mid, mid + 1, mid - 1, mid - q, mid + q, mid + 5]
+    n = int(rng.integers(2, 12))
+    col = [pyr.choice(pool) for _ in range(n)]
+    col = [v for v in col for _ in range(int(rng.integers(1, 3)))]
+    n = len(col)
+    run.state("narrow_1d_dtype", dt)
+    observe(run, "merge_runs", col, dt, (n,))
+    observe(run, "group", col, dt, (n,), min_len=pyr.choice([None, 1, 2]), max_len=pyr.choice([None, 2, 3]))
+    observe(run, "unique_ordered", col, dt, (n,), return_index=True, return_inverse=True)
+    observe(run, "blocks", col, dt, (n,), min_len=int(rng.integers(1, 3)), wrap=bool(rng.integers(2)),
+            only_nonzero=bool(rng.integers(2)))
+    observe(run, "group_min", [v % 3 for v in col], "int64", (n,), b=col, b_shape=[n], b_dtype=dt)
+    observe(run, "group_min", col, dt, (n,), b=[(5 * i) % 7 for i in range(n)], b_shape=[n], b_dtype="int64")
+    if dt == "uint64":
+        row_suite(run, col, dt, (n,), "1d_uint64")
+        if n % 2 == 0:
+            row_suite(run, col, dt, (n // 2, 2), "uint64")
+
+
+# lengths on both sides of the sizes where an implementation may switch strategy or reuse a buffer
+LONG_LENGTHS = (257, 1023, 2047, 2049, 4095, 4096, 4097, 5000, 8191, 8193, 12289, 16385, 20001)
+
+
+def gen_rle(rng, pyr, n):
+    """Run-length description of a length-n array: few long runs or many short ones, ends often equal."""
+    vals = [0, 1, 2, 5, -2]
+    style = pyr.choice(["few", "few", "few", "many"])
+    if style == "many":
+        lens = []
+        while sum(lens) < n:
+            lens.append(int(rng.integers(1, 40)))
+        lens[-1] -= sum(lens) - n
+    else:
+        r = int(rng.integers(2, 9))
+        head = pyr.choice([1, 2, int(rng.integers(3, 12)), n // 2, max(1, n - 20 - r)])
+        tail = int(rng.integers(1, 12))
+        body = max(0, n - head - tail)
+        if body < r:
+            head, body = max(1, n - tail - r), min(n - 1 - tail, r)
+        cuts = sorted(set(int(x) for x in rng.integers(1, max(2, body), size=r - 1))) if body > 1 else []
+        inner = [b - a for a, b in zip([0] + cuts, cuts + [body])] if body > 0 else []
+        lens = [head] + [x for x in inner if x > 0] + [tail]
+        lens[-1] += n - sum(lens)
+    lens = [x for x in lens if x > 0]
+    out, prev = [], None
+    for x in lens:
+        v = pyr.choice([w for w in vals if w != prev])
+        out.append([v, x])
+        prev = v
+    if len(out) > 2 and rng.random() < 0.75 and out[-2][0] != out[0][0]:
+        out[-1][0] = out[0][0]
+    return out
+
+
+def long_suite(run, n, dtype="int64"):
+    rng, pyr = run.rng, run.pyrng
+    rle = gen_rle(rng, pyr, n)
+    n = sum(c for _, c in rle)
+    head, tail = rle[0][1], rle[-1][1]
+    run.state("long_input", ("len>4096" if n > 4096 else "len<=4096", "ends_equal" if rle[0][0] == rle[-1][0] else "ends_differ",
+                             "head_long" if head > 100 else "head_short"))
+    joined = head + tail
+    grid = [(1, None, True, False), (1, None, True, True), (2, pyr.choice([None, joined, joined - 1]), True, False),
+            (pyr.choice([1, joined, joined + 1]), None, bool(rng.integers(2)), bool(rng.integers(2)))]
+    for mn, mx, wrap, nz in grid:
+        observe(run, "blocks", None, dtype, (n,), rle=rle, min_len=mn, max_len=mx, wrap=wrap, only_nonzero=nz)
+    observe(run, "merge_runs", None, dtype, (n,), rle=rle)
+    observe(run, "group", None, dtype, (n,), rle=rle, min_len=pyr.choice([None, 2]), max_len=None)
+    observe(run, "unique_ordered", None, dtype, (n,), rle=rle, return_index=True, return_inverse=True)
+    run.count("long_inputs")
+
+
+def long_inputs(run):
+    """
+    Histories of calls on long inputs: lengths ascending (every call is the longest so far), then
+    descending / random (every call is shorter than something seen before).
+    """
+    rng = run.rng
+    for n in LONG_LENGTHS:
+        for _ in range(2):
+            long_suite(run, n + int(rng.integers(0, 3)))
+    for n in sorted((int(x) for x in rng.integers(300, 20000, size=4)), reverse=True):
+        long_suite(run, n)
+
+
 def workload(run):
     fixed_cases(run)
+    long_inputs(run)
     lmax = 6 if run.tier == "quick" else 8
     idx, mine, complete = 0, 0, True
     for L in range(1, lmax + 1):
